@@ -449,8 +449,10 @@ Definition dcsim_run (case : list Z) : list Z := [].
 (* output: ops, then (expected_duplicate, code) per packet fed, then -1, then
    read, correct, dup_changed_state, acks_subset, acked_count, max_data_monotone, eof, total.
    code: 0 accepted, 1 refused as Duplicate, 2 other error.
-   A packet whose (space, number) was accepted before must be refused as Duplicate; a packet that was
-   not may not be called a duplicate. *)
+   A packet whose (space, number) was accepted before must be refused (as Duplicate, or -- when the
+   duplicate is first noticed inside the reassembler's read and the authenticity re-check then runs on the
+   already decrypted buffer -- with another non-fatal error) and must leave the buffer unchanged; a packet
+   with a fresh number (authentic, within the window) must be accepted. *)
 Fixpoint recv_pairs_ok (l : list Z) : option (list Z) :=
   match l with
   | [] => None
@@ -459,7 +461,7 @@ Fixpoint recv_pairs_ok (l : list Z) : option (list Z) :=
       match t with
       | [] => None
       | code :: t' =>
-          if (if (d =? 1)%Z then (code =? 1)%Z else (d =? 0)%Z && ((code =? 0)%Z || (code =? 2)%Z))
+          if (if (d =? 1)%Z then (code =? 1)%Z || (code =? 2)%Z else (d =? 0)%Z && (code =? 0)%Z)
           then recv_pairs_ok t' else None
       end
   end.
